@@ -65,7 +65,7 @@ PLUMBING = {"d", "d2", "d3", "req", "request", "log", "json", "http", "defer", "
             "from_name", "charset", "contents", "children", "mddict", "le", "body", "kids_json", "t",
             "to_path", "u", "uri", "redir_uri", "urlquote", "values", "k", "v", "self", "f", "DecodedURL",
             "URL", "uri_arg", "errmsg", "cs", "childcap", "new_contents", "node_or_failure", "IDirectoryNode",
-            "IFileNode", "filename"}
+            "IFileNode", "filename", "writecap", "readcap"}
 # getters / pure queries on nodes that are not recorded
 BORING = {"get_uri", "get_write_uri", "get_readonly_uri", "is_readonly", "is_mutable", "is_unknown",
           "get_storage_index", "get_verify_cap", "get_size", "get_repair_cap", "providedBy", "get_cap",
@@ -527,8 +527,9 @@ def _ro_receivers(test, where):
     return out
 
 
-def _effects(stmts):
-    """(reaches self._node.modify/overwrite/upload, [self.<m> / <x>.<m> calls]) of a statement list"""
+def _effects(stmts, receivers=None):
+    """(reaches self._node.modify/overwrite/upload, [self.<m> / <x>.<m> calls]) of a statement list;
+    with `receivers`, only calls on those names are listed"""
     modifies = False
     calls = []
     for st in stmts:
@@ -539,7 +540,7 @@ def _effects(stmts):
                     if f.attr in ("modify", "overwrite", "upload", "update"):
                         modifies = True
                     continue
-                if isinstance(f.value, ast.Name):
+                if isinstance(f.value, ast.Name) and (receivers is None or f.value.id in receivers):
                     c = "%s.%s" % (f.value.id, f.attr)
                     if c not in calls:
                         calls.append(c)
@@ -589,7 +590,8 @@ def extract_dirnode():
             m, c = _effects([st])
             if m or any(x.split(".")[1] in names and x.split(".")[0] != "d" for x in c):
                 seen_effect = True
-        modifies, calls = _effects(rest)
+        params = ["self"] + [a.arg for a in fn.args.args if a.arg != "self"]
+        modifies, calls = _effects(rest, params)
         rel = [c for c in calls if c.split(".")[1] in names and c.split(".")[0] not in ("d", "defer", "log")
                and c.split(".")[1] not in BORING]
         # any other mention of is_readonly()+NotWriteableError than the recognised guard?
